@@ -429,8 +429,9 @@ def check_lookup(ctx, rule):
     r = {}
     for n in cfg.live_nodes():
         if n.kind == "stmt" and isinstance(n.ast, ast.Return):
-            r[src(n.ast.value)] = sorted(norm(t) for t, tv in facts.at(n) if tv and "idx" in t)
-    okg = r.get("self._ttinfo_std") == [norm("idx is None or idx + 1 >= len(self._trans_list)")] and r.get("self._ttinfo_before") == ["idx<0"] and "self._trans_idx[idx]" in r
+            r[src(n.ast.value)] = set(norm(t) for t, tv in facts.at(n) if tv and "idx" in t)
+    okg = norm("idx is None or idx + 1 >= len(self._trans_list)") in r.get("self._ttinfo_std", ()) and "idx<0" in r.get("self._ttinfo_before", ()) and "self._trans_idx[idx]" in r \
+        and "idx<0" not in r.get("self._ttinfo_std", ())
     ctx.ob(rule, gt, "index -> period: before the first transition the 'before' type, inside the table the transition's own type, at/after the last transition the standard type", okg,
            construct="_get_ttinfo mapping", detail="" if okg else str(r), analysis="must-hold branch facts")
     d = prog.func("tz.tz.tzfile.dst", rule)
